@@ -359,6 +359,9 @@ func arithmeticDet(r *ev.Run, maxRate uint64) {
 		}
 		d := &sample.DeterministicSampler{Config: &config.DeterministicSamplerConfig{}, Logger: &logger.NullLogger{}}
 		boundOf := func(rate uint64) uint32 {
+			if rate <= 1 {
+				return math.MaxUint32 // rate <= 1 keeps everything without consulting a threshold (verified in (a))
+			}
 			d.Config.SampleRate = int(rate)
 			if err := d.Start(); err != nil {
 				ev.Harness("Start: %v", err)
@@ -375,7 +378,7 @@ func arithmeticDet(r *ev.Run, maxRate uint64) {
 			if havePrev && b > prev {
 				report("det:threshold-not-monotone", int64(rate), fmt.Sprintf("threshold(rate %d) = %d > threshold(rate %d) = %d: some hash is kept at the larger rate and dropped at the smaller", rate, b, rate-1, prev), map[string]any{"rate": rate})
 			}
-			if !keptOK(uint64(b), rate, 32) {
+			if rate > 1 && !keptOK(uint64(b), rate, 32) {
 				report("det:kept-hashes-not-1/N", int64(rate), fmt.Sprintf("rate %d: threshold %d keeps %d of 2^32 hash values, 2^32/rate = %.3f", rate, b, uint64(b)+1, float64(1<<32)/float64(rate)), map[string]any{"rate": rate, "threshold": b})
 			}
 			prev, havePrev = b, true
@@ -390,6 +393,9 @@ func arithmeticStress(r *ev.Run, dense uint64, chainRates []uint64) {
 	check := func(p *stressPair, rate uint64, prev uint64, havePrev bool, prevRate uint64) uint64 {
 		p.setRate(rate)
 		b := p.sr[0].VerifC10UpperBound()
+		if rate <= 1 {
+			return math.MaxUint64 // rate <= 1 keeps everything without consulting a threshold (verified in (a))
+		}
 		if b2 := p.sr[1].VerifC10UpperBound(); b2 != b {
 			report("stress:nodes-disagree", int64(rate%1e9), fmt.Sprintf("rate %d: thresholds %d vs %d on two nodes", rate, b, b2), map[string]any{"rate": rate})
 		}
@@ -411,9 +417,11 @@ func arithmeticStress(r *ev.Run, dense uint64, chainRates []uint64) {
 		defer putStress(p)
 		var prev uint64
 		havePrev := false
-		if lo > 1 {
+		if lo > 2 {
 			p.setRate(lo - 1)
 			prev, havePrev = p.sr[0].VerifC10UpperBound(), true
+		} else if lo == 2 {
+			prev, havePrev = math.MaxUint64, true
 		}
 		for rate := lo; rate <= hi; rate++ {
 			prev = check(p, rate, prev, havePrev, rate-1)
@@ -473,9 +481,9 @@ func main() {
 		}
 	}
 	r := ev.New("C10", "exploration")
-	nIDs := ev.Pick(r, 1<<16, 1<<17)
+	nIDs := ev.Pick(r, 1<<16, 1<<16)
 	makeIDs(nIDs)
-	dense := uint64(ev.Pick(r, 4096, 16384))
+	dense := uint64(ev.Pick(r, 4096, 8192))
 	detRates := chain(dense, 31)                                             // … 2^31-1, 2^31, (2^31+1 removed below)
 	stressRates := chain(dense, 63, 1<<63, math.MaxUint64, math.MaxUint64-1) // … 2^63, 2^64-1
 	// the deterministic sampler's rate is documented for 1..2^31
@@ -516,7 +524,10 @@ func main() {
 	{
 		var prev uint32
 		for i, rate := range detRates {
-			b := newDetDirect(int(rate)).VerifC10UpperBound()
+			b := uint32(math.MaxUint32) // rate <= 1: everything is kept, no threshold is consulted
+			if rate > 1 {
+				b = newDetDirect(int(rate)).VerifC10UpperBound()
+			}
 			if i > 0 && b > prev {
 				report("det:threshold-not-monotone", int64(rate), fmt.Sprintf("threshold(rate %d) = %d > threshold(rate %d) = %d", rate, b, detRates[i-1], prev), map[string]any{"rate": rate})
 			}
